@@ -59,6 +59,12 @@ def obligations(tier, ctx):
         params = [("method", "str"), ("psel", "int")] + ([("rid", "int")] if idk == "int" else [])
         call = "H.dispatch(method, %s, %s, psel, 'x', 0)" % ("True" if idk == "int" else "False", "rid" if idk == "int" else "None")
         obs.append(Ob(name=f"anymethod_id{idk}", params=params, pre=["1 <= len(method) <= 3", "0 <= psel <= 2"], call=call, backend="F", timeout=300, family="arbitrary method strings"))
+    # messages handed over as the typed classes (JSONRPCRequest / JSONRPCNotification) instead of the unified one
+    for has in (True, False):
+        obs.append(Ob(name=f"typed_{'id' if has else 'noid'}", params=[("mi", "int"), ("rid", "int"), ("psel", "int"), ("hsel", "int")],
+                      pre=[(f"0 <= mi < {N}" if tier != "quick" else "mi in (1, 3, 5, 7, 9, 11)"), "psel in (0, 7, 8)", "hsel in (0, 6, 7)"],
+                      call=f"H.dispatch_typed(H.pick_method(mi), {has}, rid if {has} else None, psel, 'x', hsel, 0)", backend="F", timeout=400,
+                      family="typed request / notification objects"))
     # a session id is presented with the message: none / live / unknown / long idle (age in seconds symbolic, unbounded)
     for has in (True, False):
         obs.append(Ob(name=f"session_{'id' if has else 'noid'}", params=[("mi", "int"), ("rid", "int"), ("sm", "int"), ("age", "int")],
